@@ -161,6 +161,11 @@ def run(m: Model, r: Report, tier: str) -> None:
     r.check(seq == sorted(seq) and idx.get("exit_code") is not None and idx.get("db_finish") is not None and idx["exit_code"] < idx["db_finish"]
             and (idx.get("end_time") is None or idx["end_time"] < idx["db_finish"]), "R2", f"{ep.qualname}#finally:order",
             f"bookkeeping order in finally is {idx}; the DB completion and META.json read run_meta.exit_code/end_time, which must be set first", loc=ep.loc)
+    jf = m.require_function("gallia.log._JSONFormatter.format")
+    jd = [n for n in ast.walk(jf.node) if isinstance(n, ast.Call) and ast.unparse(n.func) == "json.dumps"]
+    r.check(len(jd) == 1 and not jd[0].keywords, "R2", f"{jf.qualname}#ascii-json",
+            f"log records are serialised with json.dumps({', '.join(k.arg or '**' for d in jd for k in d.keywords)}): with ensure_ascii=False a message containing a lone surrogate cannot be "
+            "encoded by the file handler, its writer thread dies and the rest of the run is missing from log.json.zst", loc=jf.loc)
     rz = m.require_function("gallia.log.remove_zst_log_handler")
     gz = CFG(rz.node)
     hpar = rz.params()[1] if len(rz.params()) > 1 else "handler"
